@@ -25,6 +25,7 @@ import (
 	"github.com/lestrrat-go/jwx/v2/jwa"
 	"github.com/lestrrat-go/jwx/v2/jws"
 	v2 "github.com/nuts-foundation/nuts-node/vcr/pe/schema/v2"
+	"slices"
 	"strings"
 	"time"
 
@@ -58,6 +59,8 @@ func ParsePresentationDefinition(raw []byte) (*PresentationDefinition, error) {
 type Candidate struct {
 	InputDescriptor InputDescriptor
 	VC              *vc.VerifiableCredential
+	// vcIndex is the position of VC in the list of credentials that was matched (only meaningful if VC is set).
+	vcIndex int
 }
 
 // PresentationContext is a helper struct to keep track of the index of the VP in the nested paths of a PresentationSubmission.
@@ -153,7 +156,7 @@ func (presentationDefinition PresentationDefinition) matchConstraints(vcs []vc.V
 		match := Candidate{
 			InputDescriptor: *inputDescriptor,
 		}
-		for _, credential := range vcs {
+		for i, credential := range vcs {
 			isMatch, err := matchCredential(*inputDescriptor, credential)
 			if err != nil {
 				return nil, err
@@ -161,6 +164,7 @@ func (presentationDefinition PresentationDefinition) matchConstraints(vcs []vc.V
 			// InputDescriptor formats must be a subset of the PresentationDefinition formats, so it must satisfy both.
 			if isMatch && matchFormat(presentationDefinition.Format, credential) && matchFormat(inputDescriptor.Format, credential) {
 				match.VC = &credential
+				match.vcIndex = i
 				break
 			}
 		}
@@ -193,6 +197,11 @@ func (presentationDefinition PresentationDefinition) matchBasic(vcs []vc.Verifia
 	if len(descriptorsNotMatched) > 0 {
 		return nil, nil, errors.Join(ErrNoCredentials, fmt.Errorf("constraints not matched: %s", strings.Join(descriptorsNotMatched, ", ")))
 	}
+
+	// The selected credentials are returned in the order they have in the wallet: every input descriptor selects the first
+	// credential that matches, so matching the selection again (which is what a verifier does to validate the submission)
+	// only yields the same result if the relative order of the credentials is retained.
+	sortCandidatesByCredential(candidates)
 
 	for i, candidate := range candidates {
 		// create the InputDescriptorMappingObject with the relative path
@@ -258,27 +267,41 @@ func (presentationDefinition PresentationDefinition) matchSubmissionRequirements
 	uniqueVCs := deduplicate(selectedVCs)
 
 	// now we have the selected VCs, we can create the PresentationSubmission
-	var index int
-	var descriptors []InputDescriptorMappingObject
+	// we loop over the candidate VCs and find the one that matches the unique VC
+	var selectedCandidates []Candidate
 outer:
 	for _, uniqueVC := range uniqueVCs {
-		// we loop over the candidate VCs and find the one that matches the unique VC
-		// for each match we create a InputDescriptorMappingObject which links the VC to the InputDescriptor from the PresentationDefinition
 		for _, candidate := range candidates {
 			if candidate.VC != nil && vcEqual(uniqueVC, *candidate.VC) {
-				mapping := InputDescriptorMappingObject{
-					Id:     candidate.InputDescriptor.Id,
-					Format: candidate.VC.Format(),
-					Path:   fmt.Sprintf("$.verifiableCredential[%d]", index),
-				}
-				descriptors = append(descriptors, mapping)
-				index++
+				selectedCandidates = append(selectedCandidates, candidate)
 				continue outer
 			}
 		}
 	}
+	// The selected credentials are returned in the order they have in the wallet, see matchBasic.
+	sortCandidatesByCredential(selectedCandidates)
+	// for each match we create a InputDescriptorMappingObject which links the VC to the InputDescriptor from the PresentationDefinition
+	var descriptors []InputDescriptorMappingObject
+	uniqueVCs = nil
+	for index, candidate := range selectedCandidates {
+		mapping := InputDescriptorMappingObject{
+			Id:     candidate.InputDescriptor.Id,
+			Format: candidate.VC.Format(),
+			Path:   fmt.Sprintf("$.verifiableCredential[%d]", index),
+		}
+		descriptors = append(descriptors, mapping)
+		uniqueVCs = append(uniqueVCs, *candidate.VC)
+	}
 
 	return descriptors, uniqueVCs, nil
+}
+
+// sortCandidatesByCredential sorts the candidates (which must all have a VC) on the position of their credential in the
+// matched list of credentials. Candidates that selected the same credential keep their relative order.
+func sortCandidatesByCredential(candidates []Candidate) {
+	slices.SortStableFunc(candidates, func(a, b Candidate) int {
+		return a.vcIndex - b.vcIndex
+	})
 }
 
 // groups returns all the groupCandidates with input descriptors and matching VCs.
